@@ -98,6 +98,8 @@ struct MsgHeaderObj : PodObj<MessageHeader>
         flag("diOnIf", CF::diOnIf);
         flag("overflow", CF::overflow);
         flag("errorInPayload", CF::errorInPayload);
+        // the two segmentation bits through the flag accessors (two-bit mask): set = both, clear = neither, get = any
+        RW("segMask", 1, h.getCommonFlag(CF::seg) ? ((h.getCommonFlags() >> 2) & 3) : 0, h.setCommonFlag(CF::seg, v != 0));
     }
 };
 
@@ -589,6 +591,7 @@ struct PacketObj : Obj
         flag("diOnIf", CF::diOnIf);
         flag("overflow", CF::overflow);
         flag("errorInPayload", CF::errorInPayload);
+        RW("segMask", 1, p.getCommonFlag(CF::seg) ? ((p.getCommonFlags() >> 2) & 3) : 0, p.setCommonFlag(CF::seg, v != 0));
     }
 };
 
